@@ -193,6 +193,40 @@ impl Mon {
                                 out.count("charged_nonzero");
                             }
                         }
+                        Effect::Closed => {
+                            // an opposite order that trades the position flat settles like a close:
+                            // wallet delta = (M + PnL - F) - fees   (cw20; requested notional is charged)
+                            out.count("flat_by_opposite_order_checks");
+                            let n_close = pr.n_spot?;
+                            let realised = pnl(pr.long, n_close, pr.notional);
+                            let old_equity = pr.equity(&realised);
+                            if old_equity.is_neg() || w.cfg.native {
+                                return None;
+                            }
+                            let obs_delta = S::pos(s.post.bal[*t]).sub(&S::pos(s.pre.bal[*t]));
+                            let fees_paid: u128 = s.res.xfers.iter().filter(|x| x.from == w.traders[*t] && (x.to == w.fund.as_str() || x.to == w.fee_pool.as_str())).map(|x| x.amount).sum();
+                            // the equity either leaves to the wallet (reversal path) or stays as margin of the now
+                            // flat record (reduce path that sells exactly the whole size): both together are the equity
+                            let kept = S::pos(p1.map(|p| p.margin.u128()).unwrap_or(0));
+                            let exp_delta = old_equity.sub(&S::pos(fees_paid)).sub(&kept);
+                            if obs_delta != exp_delta {
+                                return Some(
+                                    Violation::new(
+                                        "funding_not_charged_on_reversal",
+                                        format!(
+                                            "opposite order that ends flat: wallet moved by {} but equity (margin {} + pnl {} - funding {}) {} - fees {} - margin kept in the flat record {} = {}",
+                                            obs_delta, pr.margin, realised, pr.funding, old_equity, fees_paid, kept, exp_delta
+                                        ),
+                                    )
+                                    .with("effect", "Closed")
+                                    .with("funding_zero", pr.funding.is_zero()),
+                                );
+                            }
+                            if charged {
+                                self.charged_nonzero += 1;
+                                out.count("charged_nonzero");
+                            }
+                        }
                         Effect::Reversed => {
                             // closed leg settles like a close: the trader's wallet moves by -(fees) - (new margin - (M + PnL - F))
                             let p1 = p1?;
